@@ -33,7 +33,7 @@ Offsets == {-3, -1, 0, 1, 50, 99}
 MaxOK(ma, off) == IF off = 99 THEN ma = 0 ELSE (ma = 0 \/ off >= -ma)
 PromptOK(pr, off) ==
   CASE pr = "none" -> off # 99 /\ off <= 0
-    [] pr = "login" -> off # 99 /\ off >= 0
+    [] pr \in {"login", "login consent"} -> off # 99 /\ off >= 0      \* login together with another allowed value is still login
     [] pr \in {"none login", "bogus"} -> FALSE          \* none together with another value, an unknown value
     [] pr = "consent" -> off # 99                         \* any prompt needs an auth_time to be judged against
     [] OTHER -> TRUE                                      \* absent
@@ -41,7 +41,7 @@ NotFuture(off) == off # 50
 HintOK(h) == h \in {"none", "same", "same_expired"}      \* other: another subject; garbage / no_sub / foreign_key: not a usable ID token of this server
 RowsB == { [tbl |-> "B", flow |-> f, max_age |-> ma, offset |-> off, prompt |-> pr, hint |-> h,
             issued |-> MaxOK(ma, off) /\ PromptOK(pr, off) /\ HintOK(h) /\ NotFuture(off)] :
-            f \in {"code", "implicit_idt_token", "hybrid_code_idt"}, ma \in {0, 2}, off \in Offsets, pr \in {"", "none", "login", "consent", "none login", "bogus"},
+            f \in {"code", "implicit_idt_token", "hybrid_code_idt"}, ma \in {0, 2}, off \in Offsets, pr \in {"", "none", "login", "consent", "login consent", "none login", "bogus"},
             h \in {"none", "same", "other", "same_expired", "garbage", "no_sub", "foreign_key"} }
 
 ASSUME \A r \in ValidA : r.issued => (r.openid /\ r.subject # "")
